@@ -66,7 +66,7 @@ func (h *harness) world(f Flags) *world {
 			return w
 		}
 	}
-	panic("no such world")
+	return h.worlds[0] // that configuration could not be built (already reported)
 }
 
 func (h *harness) ask(line string) (string, bool) {
@@ -497,12 +497,13 @@ func (w *world) doWSFrame(e WSEnv, expectClose bool) Obs {
 				if expectClose {
 					// the close frame is written by the writer goroutine, possibly after the sentinel's
 					// frames: give it time (the connection must close on the unchanged code)
-					c.conn.SetReadDeadline(time.Now().Add(10 * time.Second))
+					c.conn.SetReadDeadline(time.Now().Add(closeWait))
 					if _, _, err := c.conn.ReadMessage(); err != nil {
 						if _, isClose := err.(*websocket.CloseError); isClose {
 							o.Resp = describeWSErr(err)
 							break
 						}
+						waitExpired()
 					}
 				}
 				switch {
@@ -547,21 +548,16 @@ func (h *harness) checkWSAPI(e WSEnv, fl Flags, oracleOnly bool) *failure {
 	desc := fmt.Sprintf("[%s] %s didInit=%v frame %q", fl, e.Kind, e.DidInit, e.Frame)
 	var f *failure
 	switch {
-	case exp == "ignore":
-		ok := o.Resp == "ignored" && len(o.Calls) == 0 && len(o.Costs) == 0
+	case exp == "ignore" || strings.HasPrefix(exp, "(close"):
+		// the property: no response is delivered and nothing runs. Whether the frame is ignored
+		// (graphql-ws) or the connection closed with 4400 (graphql-transport-ws) is the protocol's
+		// choice; the exact choice is pinned by the correspondence below, not by the property.
+		ok := (o.Resp == "ignored" || strings.HasPrefix(o.Resp, "closed ")) && len(o.Calls) == 0 && len(o.Costs) == 0
 		if !oracleOnly {
 			h.run.Oblige("oracle: malformed / premature WebSocket start ⇒ no data frame, empty resolver log (API.ServeGraphQLWS)", "oracle", 1, ok, desc+" → "+o.key())
 		}
 		if !ok {
-			f = &failure{"property", fmt.Sprintf("%s must be ignored with nothing executed; got %s", desc, o.key())}
-		}
-	case strings.HasPrefix(exp, "(close"):
-		ok := strings.HasPrefix(o.Resp, "closed 44") && len(o.Calls) == 0 && len(o.Costs) == 0
-		if !oracleOnly {
-			h.run.Oblige("oracle: malformed / premature WebSocket start ⇒ no data frame, empty resolver log (API.ServeGraphQLWS)", "oracle", 1, ok, desc+" → "+o.key())
-		}
-		if !ok {
-			f = &failure{"property", fmt.Sprintf("%s must close the connection with a 44xx code and execute nothing; got %s", desc, o.key())}
+			f = &failure{"property", fmt.Sprintf("%s must be refused (ignored or connection closed) with nothing executed; got %s", desc, o.key())}
 		}
 	default:
 		x, _ := hx.ParseSexp(exp)
@@ -731,6 +727,9 @@ func (h *harness) checkOp(cs Case, verbose bool) opResult {
 			}
 			// the model's serve_t for this carrier
 			if rep, have := h.ask(h.modelLineForCarrier(c, op, vars, fl)); have {
+				if verbose {
+					fmt.Printf("  [%s] %-22s model: %s\n", fl, c+":", rep)
+				}
 				ok, detail := h.compareServedCached(w, rep, o, ref, coreCall{hook: fl.Hook, feat: fl.Feat, cost: fl.Cost, q: op.Query, op: op.OpName, vars: varsAtom, exts: "nil"})
 				h.run.Oblige("correspondence B: model serve_t(encode_t r) — its pipeline term evaluated with the real library — equals what carrier t delivered", "correspondence", 1, ok, detail)
 				if !ok && res.fail == nil {
@@ -746,6 +745,9 @@ func (h *harness) checkOp(cs Case, verbose bool) opResult {
 		}
 		plain := w.flags
 		plain.Hook = false
+		if _, ok := refs[plain]; !ok {
+			continue
+		}
 		a, b := refs[w.flags], refs[plain]
 		same := a.key() == b.key()
 		if !same && res.nondeterm {
@@ -1071,7 +1073,22 @@ func main() {
 		run.Note("no model driver: correspondence obligations skipped, oracles only")
 	}
 	for _, fl := range allFlags() {
-		h.worlds = append(h.worlds, newWorld(fl))
+		w, err := newWorld(fl)
+		if err != nil {
+			// an API that cannot even be built in one configuration (e.g. only through the clone path)
+			kind := "crash"
+			if fl.Hook {
+				kind = "property"
+			}
+			run.Oblige("oracle B: API built through the preprocess (clone) path answers like the API built without it", "oracle", 1, false, err.Error())
+			run.Violate(kind, fmt.Sprintf("apifu.NewAPI fails in configuration [%s]: %v", fl, err), "", false, Case{Kind: "op", Flags: &fl, Op: &Op{Query: "{ __typename }"}})
+			continue
+		}
+		h.worlds = append(h.worlds, w)
+	}
+	if len(h.worlds) == 0 {
+		run.Finish(h.model)
+		return
 	}
 	h.wsdec = newWSDecoderServer()
 	defer func() {
